@@ -77,7 +77,7 @@ def eval (toks : List String) : String :=
     | none => "panic"
   | ["dur", d, r] =>
     match d.toInt?, r.toInt? with
-    | some d, some r => showM toString (calcDuration d r)
+    | some d, some r => toString (calcDuration d r)
     | _, _ => "bad-request"
   | ["claim", now, zero, last, dep, rate] =>
     match now.toInt?, zero.toInt?, last.toInt?, dep.toInt?, rate.toInt? with
